@@ -313,7 +313,7 @@ impl PartialEq<TwoFloat> for TwoFloat {
             || self.hi.is_nan()
             || self.lo.is_nan()
             || other.hi.is_nan()
-            || self.lo.is_nan()
+            || other.lo.is_nan()
         {
             false
         } else if self.is_valid() {
